@@ -520,6 +520,31 @@ def run(prog, rep, tier):
         rep.violation(R119, STD + "|pre-epoch", "systemtime_to_datetime: for a time before 1970 the seconds are negated but the sub-second part is passed on unchanged (no 1e9 - fraction); "
                       "an mtime of 1965-12-31T23:59:59.5Z becomes 1966-01-01T00:00:00.5Z... one second late, and every message of a year-less log is dated a year late")
 
+    # ------------------------------------------------------------ R11.10 the backward walk goes round again only after strict progress
+    # Each round of the walk searches at fo_prev, which must be strictly smaller than in the round
+    # before (fo_prev_prev); when a file starts with bytes that belong to no dated message the two come
+    # out *equal*, and a guard that only stops on "greater" repeats the same search forever (the worker
+    # has sent FileInfo but no message, so the whole program hangs).  The guard must stop on >=.
+    R1110 = rep.rule("R11.10", "the year walk repeats only when the search offset strictly decreased")
+    nm_ = {i_: l_.get("name") for i_, l_ in enumerate(pb.locals)}
+    guards_ = []
+    for bb in sorted(pb.live):
+        for st_ in pb.stmts(bb):
+            if st_[0] == "=" and st_[2][0] == "bin" and st_[2][1] in ("Ge", "Gt", "Le", "Lt", "Eq", "Ne"):
+                import flow as _fl11
+                a_ = _fl11.named_target(pb, st_[2][2]) if st_[2][2][0] != "k" else None
+                c_ = _fl11.named_target(pb, st_[2][3]) if st_[2][3][0] != "k" else None
+                na, nc = nm_.get(a_), nm_.get(c_)
+                if {na, nc} == {"fo_prev", "fo_prev_prev"}:
+                    op_ = st_[2][1] if na == "fo_prev" else {"Ge": "Le", "Gt": "Lt", "Le": "Ge", "Lt": "Gt", "Eq": "Eq", "Ne": "Ne"}[st_[2][1]]
+                    guards_.append((op_, pb.blocks[bb].get("l")))
+    rep.examined(R1110, pb.path + "|progress-guard", sample={"comparisons_of_fo_prev_with_fo_prev_prev": guards_})
+    if not guards_:
+        raise CheckerError("process_missing_year: no comparison of the search offset with the previous one (progress guard not recognised)")
+    if not any(op_ in ("Ge", "Lt") for op_, _ in guards_):
+        rep.violation(R1110, pb.path + "|progress-guard", "process_missing_year: the no-progress guard compares fo_prev with fo_prev_prev using %s (line %s), so it lets the walk go round again when the offset did not move; "
+                      "a year-less log whose first line is damaged (one corrupted byte in its timestamp) makes the worker search the same offset forever and the program hangs" % (guards_[0][0], guards_[0][1]))
+
     # ------------------------------------------------------------ R11.7
     # The backward walk re-reads a message under the earlier year after a wrap.  The end of a
     # message is found by parsing the following lines *with the same assumed year*; a line that
